@@ -7,6 +7,7 @@ import E3fpVerif.DriverPipeline
 import E3fpVerif.DriverSdf
 import E3fpVerif.DriverBatch
 import E3fpVerif.DriverConformer
+import E3fpVerif.DriverFpHeap
 open Lean E3fpVerif
 
 structure St where
@@ -15,7 +16,8 @@ structure St where
 def dispatch (st : St) (j : Json) : St × Json :=
   match (do
     let op ← jStr (← jField j "op")
-    if op.startsWith "fp." then return (st, ← fprintOp op j)
+    if op.startsWith "fph." then return (st, ← fpHeapOp op j)
+    else if op.startsWith "fp." then return (st, ← fprintOp op j)
     else if op.startsWith "db." then
       let (s, r) ← dbOp st.dbs op j
       return ({ st with dbs := s }, r)
